@@ -11,7 +11,8 @@ from vlib.runner import Sub, Violation, lib
 
 PROPERTY = 'C14'
 RULE = (
-    'Operation sequences (1..9 ops) on a fresh Profiles() instance: addProfile / addProfiles of custom profiles '
+    'Operation sequences (1..9 ops) on a fresh Profiles() instance: addProfile (the caller keeps one dict per profile and hands the same '
+    'object in every time; a name may be added again while registered = replaced) / addProfiles of custom profiles '
     '(new properties, redefinition of an existing property, private macros, macros overriding token macros, general '
     'macros, a macro of another built-in profile, and the private macro of another custom profile), re-adding removed '
     'built-in profiles, removeProfile of custom / built-in / unknown names, removeProfile(all=True), defaultProfiles = '
@@ -154,6 +155,7 @@ def check(case, ctx):
         with lib('init'):
             reg = Profiles(log=cssutils.log)
         model = RegistryModel()
+        shared = {}
         compare(reg, model, 'init')
         overlap_added = False
         nontrivial = False
@@ -161,15 +163,27 @@ def check(case, ctx):
             step = f'op {k} {o!r} (history {case["ops"][:k + 1]!r})'
             kind = o[0]
             if kind == 'add':
-                if o[1] in model.names():
-                    ctx.event('skipped:already-registered')
-                    continue
                 props, mac = CUSTOM[o[1]]
-                if mac and set(mac) & set(model.env()):
-                    overlap_added = True
-                with lib('addProfile'):
-                    reg.addProfile(o[1], dict(props), dict(mac) if mac else None)
-                model.profiles.append((o[1], dict(props), dict(mac or {})))
+                # the caller keeps ONE dict per profile and hands it in again and again (it must not be changed by the registry)
+                sp, sm = shared.setdefault(o[1], (dict(props), dict(mac) if mac else None))
+                if o[1] in model.names():
+                    if k % 2:
+                        ctx.event('skipped:already-registered')
+                        continue
+                    # the same name again: the profile is replaced, i.e. removed and added
+                    ctx.event('add:again-under-the-same-name')
+                    with lib('addProfile'):
+                        reg.addProfile(o[1], sp, sm)
+                    model.profiles = [x for x in model.profiles if x[0] != o[1]]
+                    model.profiles.append((o[1], dict(props), dict(mac or {})))
+                else:
+                    if mac and set(mac) & set(model.env()):
+                        overlap_added = True
+                    with lib('addProfile'):
+                        reg.addProfile(o[1], sp, sm)
+                    model.profiles.append((o[1], dict(props), dict(mac or {})))
+                if sp != props or (sm or {}) != (mac or {}):
+                    raise Violation('add:callers-definition-modified', f'{step}: {o[1]} properties are now {sp!r}')
             elif kind == 'addmany':
                 names = [n for n in o[1] if n not in model.names()]
                 if not names:
